@@ -274,4 +274,13 @@ theorem C06_handler_calls_generated (D : Desc) (s : St) (f : Fsm) (i : SvcIn) :
     processReadLoop D s f i = Gen.process_read_loop_fn D s f i ∧ processTestLoop D s f i = Gen.process_test_loop_fn D s f i :=
   ⟨rfl, rfl, rfl, rfl⟩
 
+/-- the counters this property's theorems keep as unbounded natural numbers (`buf_size`, `unsolicited_buf_size`, `length`, `position`) are declared
+`size_t` in `cat.h` — 64 bits on the target, so they cannot wrap on any buffer, table or line that exists; the widths
+are read from the struct declarations on every run (translator item T21) -/
+theorem C06_counters_unbounded :
+    Gen.width_desc_buf_size = 64 ∧
+    Gen.width_desc_unsolicited_buf_size = 64 ∧
+    Gen.width_obj_length = 64 ∧
+    Gen.width_obj_position = 64 := by decide
+
 end Cat
